@@ -4,7 +4,9 @@ package main
 // listed in the evidence trusted_base when used.
 
 import (
+	"fmt"
 	"go/types"
+	"os"
 	"strings"
 
 	"golang.org/x/tools/go/ssa"
@@ -78,7 +80,7 @@ func libCall(e *Exec, st *State, fr *Frame, callee *ssa.Function, args []*Value,
 		return true
 	case "strings.ContainsRune", "strings.Contains", "strings.ContainsAny", "strings.HasPrefix", "strings.HasSuffix",
 		"unicode.IsSpace", "unicode.IsDigit", "unicode.IsLetter", "strings.Replace", "strings.ToUpper", "strings.ToLower",
-		"math.Pow", "unicode/utf8.RuneCountInString", "strings.Index", "strings.IndexByte", "strings.TrimSpace",
+		"math.Pow", "unicode/utf8.RuneCountInString", "reflect.DeepEqual", "strings.Index", "strings.IndexByte", "strings.TrimSpace",
 		"strings.Repeat", "math.IsNaN", "math.IsInf", "math.Float64bits", "math.Float32bits", "strings.Join":
 		use()
 		pureUF()
@@ -356,11 +358,37 @@ func (e *Exec) reflectCall(st *State, fr *Frame, callee *ssa.Function, name stri
 		e.Assert(site+"/lib-pre:reflect.Value.Slice[upper]", "safe", fr.fn.String(), st, BVCmp("bvsle", j, ln), "v.Slice(i, j): j <= v.Len()")
 		e.Assert(site+"/lib-pre:reflect.Value.Slice[order]", "safe", fr.fn.String(), st, BVCmp("bvsle", i, j), "v.Slice(i, j): i <= j")
 	}
-	if fr.mode == "nopanic" {
+	neverPanics := false
+	switch name {
+	case "(reflect.Value).Kind", "(reflect.Value).IsValid", "(reflect.Value).CanInterface":
+		// defined on every Value, the zero Value included
+		neverPanics = true
+	case "(reflect.Value).IsNil":
+		// panics exactly when the kind is not chan, func, interface, map, pointer, slice or unsafe pointer
+		if len(as) >= 1 {
+			kd := UF(sanitize("(reflect.Value).Kind")+"_00", SBV(64), as[0])
+			var okk []*Term
+			for _, c := range []int64{18, 19, 20, 21, 22, 23, 26} {
+				okk = append(okk, Eq(kd, BV64(c)))
+			}
+			if fr.mode == "panics" {
+				if !e.mayPanic(st, fr, Not(Or(okk...)), "reflect-panic", nil, nil) {
+					return true
+				}
+			}
+			neverPanics = true
+		}
+	}
+	if neverPanics {
+		// no panic path
+	} else if fr.mode == "nopanic" {
 		e.Note("assumed: %s does not panic at its call in %s", name, fnName(fr.fn))
 	} else if fr.mode == "panics" {
 		// may panic: fork an opaque panic path
 		pc := UF("panics_"+sanitize(name), SBool, as...)
+		if os.Getenv("VERIF_DEBUG") == "reflect" {
+			fmt.Fprintf(os.Stderr, "reflect-panic fork at %s in %s\n", name, fnName(fr.fn))
+		}
 		if !e.mayPanic(st, fr, pc, "reflect-panic", nil, nil) {
 			return true
 		}
